@@ -393,3 +393,14 @@ def run(ctx):
     ctx.guard(c05.r05_5_solvers)
     from . import c18
     ctx.guard(c18.r18_6)          # ... and parse_return hands the solver state back unchanged, with and without logqp
+
+
+_run_before_r12_7 = run
+
+
+def run(ctx):
+    _run_before_r12_7(ctx)
+    # a chunk boundary on the step grid must be reached by the same steps as in the one-shot solve: the end-of-call guard
+    # only absorbs a remainder of rounding-error size, also far from the origin of time (last-steps model of C12)
+    from . import integrate_kit as _ik
+    ctx.guard(_ik.rule_last_steps, "R13.7", False)
